@@ -162,7 +162,15 @@ class CFG:
             self._loops[-1][1].append((n, None))
             return []
         if isinstance(s, (ast.Match,)):
-            raise AnalysisError("match statement not supported by the CFG builder")
+            # subject evaluated once; every case body is an alternative; no case may match
+            t = self._new("iter", s.subject)
+            self.of_stmt[s] = t
+            self._connect(ends, t)
+            self._exc_edges(t)
+            outs = [(t, None)]
+            for case in s.cases:
+                outs += self._block(case.body, [(t, None)])
+            return outs
         # simple statement
         n = self._new("stmt", s)
         self.of_stmt[s] = n
